@@ -24,4 +24,16 @@ TEXT = {
   "note": "Reference semantics are those of Appendix A of DESIGN.md; only documented behaviour is asserted (e.g. Head on an unordered stage is checked as a bounded sub-multiset). Termination is a 90 s per-program budget (programs take milliseconds). Other executors/configurations are covered by C04.",
   "technique": "property-based differential testing against a reference interpreter (rapid) + bounded-exhaustive program enumeration",
  },
+ "C17": {
+  "text": "For one construction recipe, the rows delivered must not depend on how the reader is read or fed: every operator reader obtained through the public Slice.Reader(shard, deps) (Map, Filter, Flatmap, Head, Fold, Reduce, Cogroup, WriterFunc, Scan, Const, ReaderFunc, ScanReader) is driven with generated destination-size schedules and with chunking dependency readers (arbitrary chunk sizes, zero-row reads where documented as tolerated, EOF with or after the last rows), as are sliceio.MultiReader, FrameReader, ReadFull, Scanner (Scan/Scanv; wrong arity and type must be rejected with an error) and exec's taskBuffer reader and multiReader. Every read is checked for 0<=n<=len(dest), untouched guard rows around the destination view and unchanged earlier frames; totals are compared with the reference (sequence, or multiset where the operator fixes no order).",
+  "design_ref": "DESIGN.md 4 C17",
+  "note": "'writes only those rows' is checked as 'never writes outside the destination view'; rows [n, len) of the destination are scratch (ReaderFunc hands the whole zeroed destination to user code by documented design). Merge-type inputs get no zero-row reads (documented as end of input).",
+  "technique": "property-based metamorphic testing (rapid): invariance under read/chunk schedules, against a reference evaluator",
+ },
+ "C09": {
+  "text": "The combining hash table is enumerated completely over small alphabets: every key sequence up to length 6 (quick, 6 keys) / 7 (thorough, 7 keys) over an alphabet whose keys all collide into one slot of the table and over a plain alphabet, with initial table sizes 8/4/2, scratch sizes 1..3, batch sizes 1..3 and a mid-stream compaction, compared with a map model after every batch and after Compact. The spilling combiner is explored with rapid: multi-column keys over 13 key types, skewed keys, spill thresholds from 1, vector sizes 1..128, spill batches 1..128, read back through Reader() or WriteTo()+decode; oracle: one row per key, ascending key order, folded value, no spiller directory left.",
+  "design_ref": "DESIGN.md 4 C09",
+  "note": "In-package test (package exec) through the overlay; combiners are commutative and associative; private TMPDIR per process makes the spill-directory check exact.",
+  "technique": "bounded-exhaustive enumeration + property-based testing (rapid) against a map model",
+ },
 }
